@@ -197,15 +197,16 @@ def build_request(unit, inst, contracts):
                     d["iter"] = v.strip()
                 else:
                     d["inv"] = subst_vars(v, inst)
-            m = re.match(r"^proof ([\w:]+)$", k)
+            m = re.match(r"^proof ([\w\.]+)$", k)
             if m and mode == "body":
-                req["proofs"][m.group(1)] = subst_vars(v, inst)
+                req["proofs"][m.group(1).replace(".", ":")] = subst_vars(v, inst)
             m = re.match(r"^method (\w+)$", k)
             if m:
                 req["methods"][m.group(1)] = subst_vars(v, inst)
         if mode != "body":
             req["closures"] = {}
             req["loops"] = {}
+        req["_inst"] = dict(inst)
         reqs.append(req)
         inst = uinst
     return reqs
@@ -327,6 +328,9 @@ def assemble(unit, inst, contracts, outs):
             a.add(o["header"] + " {", "item", o["id"])
             if o.get("assoc"):
                 a.add(o["assoc"].rstrip("\n"), "item", o["id"])
+            extra = subst_vars(contracts[o["id"].split("{")[0]].get("impl_extra", ""), next(r for r in unit["_reqs"] if r["id"] == o["id"])["_inst"])
+            if extra.strip():
+                a.add(extra, "item", o["id"])
             a.add(o["text"], "item", o["id"])
             a.add("}", "item", o["id"])
         else:
